@@ -311,6 +311,16 @@ def run(tier, seed, replay=None):
     judge(ck, smuts, sres, [dict(x, kind=m['kind'], what=m['what']) for (_, x), m in zip(svs, smuts)], 'scope-violation')
     ck.extra_cov['scope_violation_programs'] = len(svs)
 
+    # ---- private members of M.A reached from an unrelated class also named A
+    snp, control = faults.same_name_private_programs()
+    sres2 = par_jobs([{'id': i, 'sources': x['sources'], 'entries': ['Main'], 'compile': True} for i, (_, x) in enumerate(snp)]
+                     + [{'id': len(snp), 'sources': control['sources'], 'entries': ['Main'], 'compile': True}])
+    ctrl = sres2[len(snp)]
+    ck.obligation('same-name control program (public members only) is accepted', not ctrl['errors'] and ctrl['compile'] == 'ok',
+                  str(ctrl['errors'][:2]) if ctrl['errors'] else 'accepted and compiled')
+    smuts2 = [{'module': 'Main', 'kind': k, 'what': 'private member of X1.A used from Main.A', 'site': [1, 0], 'edit': x['sources']['Main'][:200]} for k, x in snp]
+    judge(ck, smuts2, sres2[:len(snp)], [dict(x, kind=m['kind'], what=m['what']) for (_, x), m in zip(snp, smuts2)], 'same-name')
+
     # ---- generated programs
     rng = Rng(seed ^ 0xC06)
     nprog = 150 if tier == 'quick' else 1200
